@@ -49,32 +49,63 @@ fn eci_tab_13() {
     one_byte_table(13, cs::iso8859_11);
 }
 
-/// ECI 26 (UTF-8) and 27 (US-ASCII): up to 3 arbitrary bytes; accepted exactly
+/// ECI 26 (UTF-8) and 27 (US-ASCII): LEN arbitrary bytes; accepted exactly
 /// when well formed UTF-8 resp. all 7-bit, and passed through unchanged.
-#[kani::proof]
-#[kani::unwind(6)]
-fn eci_utf8_ascii() {
-    let b: [u8; 3] = kani::any();
-    let len: usize = kani::any();
-    kani::assume(len <= 3);
-    let ascii: bool = kani::any();
+fn utf8_ascii<const LEN: usize>(ascii: bool) {
+    let b: [u8; LEN] = kani::any();
     let mut out = String::with_capacity(8);
-    let r = convert_chunk(&b[..len], if ascii { 27 } else { 26 }, &mut out);
-    let seven_bit = (len < 1 || b[0] < 0x80) && (len < 2 || b[1] < 0x80) && (len < 3 || b[2] < 0x80);
-    let want = if ascii { seven_bit } else { cs::utf8_valid(&b, len) };
+    let r = convert_chunk(&b, if ascii { 27 } else { 26 }, &mut out);
+    let mut seven_bit = true;
+    let mut k = 0;
+    while k < LEN {
+        if b[k] >= 0x80 {
+            seven_bit = false;
+        }
+        k += 1;
+    }
+    let want = if ascii { seven_bit } else { cs::utf8_valid(&b, LEN) };
     if want {
         assert!(r.is_ok());
         let got = out.as_bytes();
-        assert!(got.len() == len);
-        assert!(len < 1 || got[0] == b[0]);
-        assert!(len < 2 || got[1] == b[1]);
-        assert!(len < 3 || got[2] == b[2]);
-        kani::cover!(!ascii && len == 3 && b[0] >= 0xE0);
-        kani::cover!(!ascii && len == 2 && b[0] >= 0xC2);
+        assert!(got.len() == LEN);
+        k = 0;
+        while k < LEN {
+            assert!(got[k] == b[k]);
+            k += 1;
+        }
     } else {
         assert!(r == Err(DataDecodingError::CharsetError));
-        kani::cover!(ascii && len == 2 && b[0] == 0xC3);
     }
+    kani::cover!(want || LEN == 0);
+    kani::cover!(!want || LEN == 0);
+}
+
+#[kani::proof]
+#[kani::unwind(6)]
+fn eci_ascii_2() {
+    utf8_ascii::<0>(true);
+    utf8_ascii::<1>(true);
+    utf8_ascii::<2>(true);
+}
+
+#[kani::proof]
+#[kani::unwind(6)]
+fn eci_utf8_2() {
+    utf8_ascii::<0>(false);
+    utf8_ascii::<1>(false);
+    utf8_ascii::<2>(false);
+}
+
+#[kani::proof]
+#[kani::unwind(6)]
+fn eci_utf8_3() {
+    utf8_ascii::<3>(false);
+}
+
+#[kani::proof]
+#[kani::unwind(6)]
+fn eci_utf8_4() {
+    utf8_ascii::<4>(false);
 }
 
 /// Any ECI number, up to two arbitrary bytes: a value or an error, never a panic.
@@ -82,11 +113,11 @@ fn eci_utf8_ascii() {
 #[kani::unwind(6)]
 fn np_eci_chunk() {
     let b: [u8; 2] = kani::any();
-    let len: usize = kani::any();
-    kani::assume(len <= 2);
     let eci: u32 = kani::any();
     let mut out = String::with_capacity(8);
-    let _ = convert_chunk(&b[..len], eci, &mut out);
+    let _ = convert_chunk(&b[..0], eci, &mut out);
+    let _ = convert_chunk(&b[..1], eci, &mut out);
+    let _ = convert_chunk(&b[..2], eci, &mut out);
 }
 
 /// convert() with the span lists decode_parts can produce (positions
